@@ -112,8 +112,9 @@ def frame_check(its, ots, unphased):
                 if [i for i, _ in la] != [i for i, _ in lb]:
                     perm_only = False
                     break
-                if [r for _, r in la] == [r for _, r in lb]:
-                    continue
+                if all(x[:2] == y[:2] and (x[2] == y[2] or switch_ok(x[2], y[2]))
+                       for (_, x), (_, y) in zip(la, lb)):
+                    continue          # this site kept its row order
                 # match output rows to input rows (same state; same node or a legal switch)
                 rest = [r for _, r in la]
                 for _, r in lb:
